@@ -9,8 +9,9 @@ class BudgetPanic extends Error {}
 class LexPanic extends Error {}
 
 let cur = null; // environment of the running parse
-function hookNext() {
+function hookNext(incoming) {
   const e = cur;
+  e.inHash = (Math.imul(e.inHash ^ (incoming | 0), 16777619)) >>> 0;
   e.steps++;
   if (e.steps > e.budget) throw new BudgetPanic('budget');
   const i = e.fetched;
@@ -45,7 +46,7 @@ function load(path) {
 }
 
 function runParse(mod, feed, budget) {
-  const e = { feed: feed, fetched: 0, recs: [], steps: 0, budget: budget > 0 ? budget : 10000 + 200 * (feed.toks || []).length };
+  const e = { inHash: 0, feed: feed, fetched: 0, recs: [], steps: 0, budget: budget > 0 ? budget : 10000 + 200 * (feed.toks || []).length };
   cur = e;
   mod.logs.length = 0;
   const res = { o: '', f: 0 };
@@ -67,6 +68,7 @@ function runParse(mod, feed, budget) {
   }
   res.recs = e.recs;
   res.f = e.fetched;
+  res.in = e.inHash.toString(16);
   return res;
 }
 
